@@ -219,6 +219,55 @@ func runC12(ctx *Ctx) error {
 			os.RemoveAll(sb)
 		}
 	}
+	// stored content that names a path: a message that arrived with an X-FilePath header is stored,
+	// listed (also by a fresh handler) and has its read flag rewritten; the rewrite must go to the
+	// message's own file, wherever the stored header points
+	for k, mk := range []func(sb, mbox string) string{
+		func(sb, mbox string) string { return filepath.Join(sb, "decoy", "victim.b2f") },
+		func(sb, mbox string) string { return mbox + "/in/../../victim.b2f" },
+		func(sb, mbox string) string { return mbox + "/in/../../../../x.b2f" },
+		func(sb, mbox string) string { return "../../x.b2f" },
+		func(sb, mbox string) string { return mbox + "/in/../out/planted.b2f" },
+	} {
+		sb := filepath.Join(root, fmt.Sprintf("rw%d", k))
+		mbox := filepath.Join(sb, "a", "b", "mbox")
+		os.MkdirAll(mbox, 0o755)
+		for _, d := range []string{"x.b2f", "a/x.b2f", "decoy/victim.b2f", "a/b/victim.b2f"} {
+			os.MkdirAll(filepath.Dir(filepath.Join(sb, d)), 0o755)
+			os.WriteFile(filepath.Join(sb, d), []byte("decoy"), 0o644)
+		}
+		h := mailbox.NewDirHandler(mbox, false)
+		h.Prepare()
+		evil := mk(sb, mbox)
+		c12Extra = map[string]string{"X-FilePath": evil}
+		h.ProcessInbound(c12Message("REWRITE00001"))
+		c12Extra = nil
+		old := time.Now().Add(-time.Hour)
+		filepath.Walk(sb, func(p string, info os.FileInfo, err error) error { os.Chtimes(p, old, old); return nil })
+		before := snapshot(sb)
+		for round := 0; round < 2; round++ {
+			hh := h
+			if round == 1 {
+				hh = mailbox.NewDirHandler(mbox, false)
+				hh.Prepare()
+			}
+			msgs, _ := hh.Inbox()
+			for _, m := range msgs {
+				mailbox.SetUnread(m, round == 1)
+			}
+		}
+		touched := snapDiff(before, snapshot(sb))
+		rel, _ := filepath.Rel(sb, mbox)
+		for _, t := range touched {
+			if !strings.HasPrefix(t, rel+"/in/") {
+				res.Fail(Failure{Kind: "oracle", Site: "touched-outside-mailbox", Case: map[string]interface{}{"op": "list + SetUnread of a stored message", "stored_x_filepath": evil, "touched": touched}, Detail: t})
+				break
+			}
+		}
+		res.Eval("rewrite:"+evil, true)
+		res.Count("stored-path-rewrite")
+		os.RemoveAll(sb)
+	}
 	out, err := ctx.Model.RunParallel(lines, 8)
 	if err != nil {
 		return err
